@@ -8,6 +8,7 @@ package c14
 
 import (
 	"fmt"
+	"os"
 	"strings"
 	"sync"
 	"sync/atomic"
@@ -637,6 +638,10 @@ func Run(c *hx.Ctx) {
 	// hx.Rng streams of neighbouring seeds are shifts of one another: fork twice so that the harness processes of one
 	// thorough run (seeds s*1000+k) do not fall into step
 	rng := c.Rng.Fork().Fork()
+	if os.Getenv("C14_ONLY") == "mx" { // development aid: only the many-stream / update cases
+		runMxAll(c, rng)
+		return
+	}
 	var cases []*kase
 	add := func(k *kase) {
 		// a third of the generated cases (not the corpus, which has routes set by hand before) run with a live retry policy
@@ -853,4 +858,6 @@ func Run(c *hx.Ctx) {
 			}
 		}
 	}
+	// many streams (filter instances) and configuration updates: kind mx (c14_multi.go)
+	runMxAll(c, rng)
 }
